@@ -209,6 +209,13 @@ class Node:
         from bromelia.avps import (SessionIdAVP, OriginHostAVP, OriginRealmAVP, DestinationRealmAVP, DestinationHostAVP, UserNameAVP,
                                    ResultCodeAVP, ProductNameAVP, DisconnectCauseAVP)
         from bromelia.constants import DISCONNECT_CAUSE_BUSY
+        # a controlled thread parked inside an identifier draw holds the (real) identifiers lock that the
+        # constructors below need: let it finish the draw first
+        for _ in range(200):
+            ts = [t for t in self.s.threads if not t.done and t.pending is not None and t.pending[0] == "op" and t.pending[2] == "urandom"]
+            if not ts:
+                break
+            self.s.step(ts[0])
         host, realm = self.peer
         if not valid and variant % 3 == 0:
             host = "intruder.network"
